@@ -22,11 +22,43 @@ pub struct Case {
     /// bytes that never look like an end tag)
     #[serde(default)]
     pub decoy: Option<u16>,
+    /// Some(k): the region is not built from the fields above but is another
+    /// structure handed to load() by mistake: 0/1 a valid Multiboot2 *header*
+    /// (I386 / MIPS32, a few tags), 2 a Multiboot 1 header, 3 an ELF file header
+    #[serde(default)]
+    pub foreign: Option<u8>,
 }
 
 pub const MAX_TS: u32 = 1 << 20;
 
 pub fn region(c: &Case) -> Vec<u8> {
+    if let Some(k) = c.foreign {
+        use mb2_model::encode::{conformant_hdr_tag, hdr, hdr_end_tag};
+        let mut v = match k % 4 {
+            0 | 1 => {
+                let mut tags: Vec<Vec<u8>> = (0..(c.key % 4) as u32).map(|j| conformant_hdr_tag(2 + j, c.key, 1, 0)).collect();
+                tags.push(hdr_end_tag());
+                hdr(if k % 4 == 0 { 0 } else { 4 }, &tags, 0)
+            }
+            2 => {
+                let flags = (c.key as u32) & 0x0001_0007;
+                let mut v = vec![0u8; 48];
+                put32(&mut v, 0, 0x1BAD_B002);
+                put32(&mut v, 4, flags);
+                put32(&mut v, 8, 0u32.wrapping_sub(0x1BAD_B002u32.wrapping_add(flags)));
+                v
+            }
+            _ => {
+                let mut v = vec![0u8; 64];
+                v[..8].copy_from_slice(&[0x7f, b'E', b'L', b'F', 2, 1, 1, 0]);
+                v
+            }
+        };
+        // what load() may touch: max(8, r8(first word)) bytes - capped, the huge
+        // first words of these structures are never fully mapped here
+        v.resize(v.len().max(64), 0);
+        return v;
+    }
     let len = r8(c.ts as usize).max(8);
     let mut v: Vec<u8> = (0..len).map(|i| marker(c.key, i)).collect();
     let ts = c.ts as usize;
@@ -109,7 +141,71 @@ fn judge(c: &Case, want: MbiLoad, got: &Transcript) -> Result<(), String> {
     if d.is_empty() {
         Ok(())
     } else {
-        Err(format!("total size word {}: {}", c.ts, d.join("; ")))
+        Err(format!("total size word {}{}: {}", if c.foreign.is_some() { le32(&region(c), 0) } else { c.ts }, if c.foreign.is_some() { " (another structure handed to load)" } else { "" }, d.join("; ")))
+    }
+}
+
+// --- the same decision in every build configuration ------------------------------
+
+fn config_regions() -> Vec<Vec<u8>> {
+    let mut v: Vec<Vec<u8>> = addr_cases().iter().map(region).collect();
+    for k in 0..4u8 {
+        v.push(region(&Case { null: false, ts: 0, reserved: 0, last8: Hex(vec![0; 8]), key: 3, place: Place::End, decoy: None, foreign: Some(k) }));
+    }
+    // well-formed structures of 4 KiB .. 1 MiB (one large tag + end tag), and the same without end tag
+    for total in [0x1000usize, 0xFFF8, 0x1_0000, 0x1_0008, 0x2_0000, 0x10_0000] {
+        let body = vec![0x6Bu8; total - 8 - 8 - 8];
+        v.push(mb2_model::encode::mbi(&[mb2_model::encode::tag(0x99, &body)], 0, 0, true));
+        let mut broken = mb2_model::encode::mbi(&[mb2_model::encode::tag(0x99, &body)], 0, 0, true);
+        let n = broken.len();
+        broken[n - 4] = 9;
+        v.push(broken);
+    }
+    v
+}
+
+fn config_ok(bytes: &[u8]) -> Result<(), String> {
+    let want = predict_mbi_load(bytes);
+    let want_line = if want == MbiLoad::Ok { "load = 'Ok'".to_string() } else { format!("load = Err({})", want.text()) };
+    let mut padded = bytes.to_vec();
+    padded.resize(r8(padded.len()).max(8), 0);
+    let answers = super::c08::ask_line(&format!("M {}\n", hex(&padded))).map_err(|e| format!("INCONCLUSIVE: transcript servers: {e}"))?;
+    for (cfg, text) in answers {
+        let line = text.lines().find(|l| l.starts_with("load = ")).unwrap_or("(no load line)");
+        if line != want_line {
+            return Err(format!("region of {} bytes (total size word {}): configuration {cfg} answers `{line}`, the decision table says `{want_line}`", bytes.len(), le32(bytes, 0)));
+        }
+    }
+    Ok(())
+}
+
+fn run_configs(ctx: &Ctx, rep: &mut SubReport) {
+    for (i, bytes) in config_regions().into_iter().enumerate() {
+        if !ctx.mine(i as u64) {
+            continue;
+        }
+        rep.evaluations += 1;
+        rep.nontrivial.insert(fnv(&bytes[..bytes.len().min(64)]) ^ bytes.len() as u64);
+        match config_ok(&bytes) {
+            Ok(()) => {}
+            Err(m) if m.starts_with("INCONCLUSIVE") => {
+                rep.inconclusive.push(m);
+                return;
+            }
+            Err(m) => {
+                rep.violations.push(Violation { sub: "load-all-configs".into(), profile: profile_name().into(), message: m, case: json!({"index": i}) });
+                return;
+            }
+        }
+    }
+    rep.samples.push(json!({"total_size": "0x10008", "expect": "loads in all four configurations"}));
+}
+
+fn replay_configs(v: &serde_json::Value) -> Result<(), String> {
+    let i = v["index"].as_u64().unwrap_or(0) as usize;
+    match config_regions().get(i) {
+        Some(b) => config_ok(b),
+        None => Err("replay file names no region".into()),
     }
 }
 
@@ -120,7 +216,7 @@ fn addr_cases() -> Vec<Case> {
     let bad = Hex(vec![0, 0, 0, 0, 9, 0, 0, 0]);
     let mut v = Vec::new();
     for (i, (ts, last8)) in [(16u32, &end), (24, &end), (64, &end), (24, &bad), (8, &end), (20, &end), (0, &end)].into_iter().enumerate() {
-        v.push(Case { null: false, ts, reserved: if i % 2 == 0 { 0 } else { 0xFFFF_FFFF }, last8: last8.clone(), key: 0xADD0 + i as u64, place: Place::End, decoy: None });
+        v.push(Case { null: false, ts, reserved: if i % 2 == 0 { 0 } else { 0xFFFF_FFFF }, last8: last8.clone(), key: 0xADD0 + i as u64, place: Place::End, decoy: None, foreign: None });
     }
     v
 }
@@ -202,18 +298,24 @@ fn strategy(_: &Ctx) -> BoxedStrategy<Case> {
         prop_oneof![4 => Just(Place::End), 1 => Just(Place::Start)],
         prop_oneof![2 => Just(None), 1 => any::<u16>().prop_map(Some)],
     )
-        .prop_map(|(null, ts, reserved, last8, key, place, decoy)| Case { null, ts, reserved, last8, key, place, decoy })
+        .prop_map(|(null, ts, reserved, last8, key, place, decoy)| Case { null, ts, reserved, last8, key, place, decoy, foreign: if key % 23 == 0 { Some((key >> 8) as u8 % 4) } else { None } })
         .boxed()
 }
 
 fn enumerate(ctx: &Ctx) -> Box<dyn Iterator<Item = Case>> {
     let mut v = Vec::new();
-    v.push(Case { null: true, ts: 0, reserved: 0, last8: Hex(vec![0; 8]), key: 0, place: Place::End, decoy: None });
+    v.push(Case { null: true, ts: 0, reserved: 0, last8: Hex(vec![0; 8]), key: 0, place: Place::End, decoy: None, foreign: None });
+    // other structures handed to load() by mistake
+    for k in 0..4u8 {
+        for key in 0..8u64 {
+            v.push(Case { null: false, ts: 0, reserved: 0, last8: Hex(vec![0; 8]), key, place: Place::End, decoy: None, foreign: Some(k) });
+        }
+    }
     let variants = last8_variants();
     for ts in 0u32..=72 {
         for l in &variants {
             for reserved in [0u32, 0xDEAD_BEEF] {
-                v.push(Case { null: false, ts, reserved, last8: Hex(l.to_vec()), key: ts as u64, place: Place::End, decoy: if reserved == 0 { None } else { Some((ts as u16).wrapping_mul(2657)) } });
+                v.push(Case { null: false, ts, reserved, last8: Hex(l.to_vec()), key: ts as u64, place: Place::End, decoy: if reserved == 0 { None } else { Some((ts as u16).wrapping_mul(2657)) }, foreign: None });
             }
         }
     }
@@ -222,7 +324,7 @@ fn enumerate(ctx: &Ctx) -> Box<dyn Iterator<Item = Case>> {
         for d in 0u32..8 {
             let ts = 8 * k - d;
             for l in &variants[..2] {
-                v.push(Case { null: false, ts, reserved: 0, last8: Hex(l.to_vec()), key: ts as u64, place: if k % 5 == 0 { Place::Start } else { Place::End }, decoy: if k % 3 == 0 { Some((ts as u16).wrapping_mul(40503)) } else { None } });
+                v.push(Case { null: false, ts, reserved: 0, last8: Hex(l.to_vec()), key: ts as u64, place: if k % 5 == 0 { Place::Start } else { Place::End }, decoy: if k % 3 == 0 { Some((ts as u16).wrapping_mul(40503)) } else { None }, foreign: None });
             }
         }
     }
@@ -375,6 +477,13 @@ fn strategy_chain(_: &Ctx) -> BoxedStrategy<ChainCase> {
 
 pub fn subs() -> Vec<Box<dyn Sub>> {
     vec![
+    Box::new(LoopSub {
+        name: "load-all-configs",
+        profiles: Profiles::ReleaseOnly,
+        rule: "BootInformation::load of 25 fixed regions inside each of the four transcript servers ({dev, release} x {default features, --no-default-features}): the small decision-table regions, other structures handed to load by mistake (Multiboot2 header, Multiboot 1 header, ELF file), well-formed structures of 4 KiB, 64 KiB - 8, 64 KiB, 64 KiB + 8, 128 KiB and 1 MiB with and without a valid end tag. Oracle: every configuration gives the decision of the statement's table. Non-trivial = every region",
+        run: run_configs,
+        replay: replay_configs,
+    }),
     Box::new(LoopSub {
         name: "special-addresses",
         profiles: Profiles::Both,
